@@ -129,7 +129,9 @@ static bool exhaustive(Stats &st, std::string &msg)
 
 // history case: slots are handed out (find_available_user), logged in, go silent, expire and are handed out again; after
 // every step every tunnel address is looked up and must resolve to its slot exactly when that slot's *current* session is
-// logged in and was active within 58 s (>= 62 s: never; in between: not judged)
+// logged in and not silent for more than 60 s -- the rule by which the server accepts or refuses the session's own requests
+// (C04: 'a session silent for more than 60 seconds is refused').  All times in this model are whole seconds, like the server's clock,
+// so the boundary is judged exactly: silent <= 60 s live, >= 61 s dead.
 static CaseResult history_case(Tape &t)
 {
 	CaseResult r;
@@ -147,13 +149,13 @@ static CaseResult history_case(Tape &t)
 		case 0: {   // a new client asks for a slot
 			int got = v_find_available_user();
 			bool any_free = false, all_young = true;
-			for (int i = 0; i < n; i++) { uint64_t silent = sim::W.now - model[i].last; if (!model[i].active || silent >= 62000000ull) any_free = true; if (!model[i].active || silent > 58000000ull) all_young = false; }
-			if (got < 0) { if (any_free) r.fail("C18:no-slot-although-free", scn::fmt("find_available_user returned -1 although a slot is unused or silent >= 62 s (step %d)", k)); }
+			for (int i = 0; i < n; i++) { uint64_t silent = sim::W.now - model[i].last; if (!model[i].active || silent >= 61000000ull) any_free = true; if (!model[i].active || silent > 60000000ull) all_young = false; }
+			if (got < 0) { if (any_free) r.fail("C18:no-slot-although-free", scn::fmt("find_available_user returned -1 although a slot is unused or silent >= 61 s (step %d)", k)); }
 			else if (got >= n) r.fail("C18:slot-out-of-range", "slot index out of range");
 			else {
 				uint64_t silent = sim::W.now - model[got].last;
-				if (model[got].active && silent <= 58000000ull) r.fail("C18:live-slot-handed-out", scn::fmt("slot %d was handed out again %.1f s after its session was last active", got, silent / 1e6));
-				if (all_young) r.fail("C18:live-slot-handed-out", "a slot was handed out although every slot was active within 58 s");
+				if (model[got].active && silent <= 60000000ull) r.fail("C18:live-slot-handed-out", scn::fmt("slot %d was handed out again %.1f s after its session was last active", got, silent / 1e6));
+				if (all_young) r.fail("C18:live-slot-handed-out", "a slot was handed out although every slot was active within the last 60 s");
 				if (model[got].active) expired_reuse++;
 				model[got].active = true; model[got].auth = false; model[got].last = sim::W.now; handed++;
 				hist += scn::fmt(" alloc->%d", got);
@@ -162,7 +164,7 @@ static CaseResult history_case(Tape &t)
 		}
 		case 1: {   // the session on a slot logs in (what the login handler does: authenticated = 1, last_pkt = now)
 			int i = (int)t.below((uint32_t)n);
-			if (!model[i].active || sim::W.now - model[i].last > 58000000ull) break;
+			if (!model[i].active || sim::W.now - model[i].last > 60000000ull) break;
 			v_user_set(i, 1, 1, 0, (long)sim::W.wall());
 			model[i].auth = true; model[i].last = sim::W.now; relogin++;
 			hist += scn::fmt(" login(%d)", i);
@@ -170,20 +172,20 @@ static CaseResult history_case(Tape &t)
 		}
 		case 2: {   // traffic from a logged-in session refreshes it
 			int i = (int)t.below((uint32_t)n);
-			if (!model[i].active || !model[i].auth || sim::W.now - model[i].last > 58000000ull) break;
+			if (!model[i].active || !model[i].auth || sim::W.now - model[i].last > 60000000ull) break;
 			v_user_set(i, 1, 1, 0, (long)sim::W.wall()); model[i].last = sim::W.now;
 			break;
 		}
-		default: { static const uint64_t DT[] = {1000000, 10000000, 30000000, 58000000, 62000000, 70000000}; uint64_t dt = DT[t.below(6)]; sim::W.now += dt; hist += scn::fmt(" +%llus", (unsigned long long)(dt / 1000000)); break; }
+		default: { static const uint64_t DT[] = {1000000, 10000000, 30000000, 58000000, 62000000, 70000000, 59000000, 60000000, 61000000}; uint64_t dt = DT[t.below(9)]; sim::W.now += dt; hist += scn::fmt(" +%llus", (unsigned long long)(dt / 1000000)); break; }
 		}
 		// lookups
 		for (int i = 0; i < n && r.ok; i++) {
 			int got = v_find_user_by_ip(v_user_ip(i));
 			uint64_t silent = sim::W.now - model[i].last;
-			bool live = model[i].active && model[i].auth && silent <= 58000000ull;
-			bool dead = !model[i].active || !model[i].auth || silent >= 62000000ull;
-			if (live && got != i) r.fail("C18:lookup-misses-live-session", scn::fmt("lookup of the address of slot %d returned %d although its session is logged in and active (step %d:%s)", i, got, k, hist.c_str()));
-			if (dead && got != -1) r.fail("C18:lookup-finds-dead-session", scn::fmt("lookup of the address of slot %d returned %d although its current session is %s (step %d:%s)", i, got, !model[i].active ? "unused" : (!model[i].auth ? "not logged in" : "silent >= 62 s"), k, hist.c_str()));
+			bool live = model[i].active && model[i].auth && silent <= 60000000ull;
+			bool dead = !model[i].active || !model[i].auth || silent >= 61000000ull;
+			if (live && got != i) r.fail("C18:lookup-misses-live-session", scn::fmt("lookup of the address of slot %d returned %d although its session is logged in and was active %llu s ago (step %d:%s)", i, got, (unsigned long long)(silent / 1000000), k, hist.c_str()));
+			if (dead && got != -1) r.fail("C18:lookup-finds-dead-session", scn::fmt("lookup of the address of slot %d returned %d although its current session is %s (step %d:%s)", i, got, !model[i].active ? "unused" : (!model[i].auth ? "not logged in" : "silent >= 61 s"), k, hist.c_str()));
 		}
 	}
 	r.render = scn::fmt("history: /%d server .%u, %d steps, %d slots handed out, %d logins, %d re-issued after expiry:%s", m, server & 255, nsteps, handed, relogin, expired_reuse, hist.substr(0, 300).c_str());
